@@ -78,7 +78,7 @@ def is_sym(v):
 
 
 def is_num(v):
-    return (isinstance(v, (int, Fraction)) and not isinstance(v, bool)) or \
+    return (isinstance(v, (int, Fraction, float)) and not isinstance(v, bool)) or \
         (is_sym(v) and z3.is_arith(v))
 
 
